@@ -29,12 +29,13 @@ allvars == <<stage, rule, listing, g, pat, rx, stream, found, outcome, orig, def
 
 GOf(r) == [mfm |-> (r.cfgmfm = "T"), ofm |-> (r.cfgofm = "T")]
 
-JInit ==
-    /\ rule \in RuleDocs /\ listing \in Listings
+JInitFor(r, ls) ==
+    /\ rule = r /\ listing = ls
     /\ stage = "LoadRule" /\ g = [mfm |-> FALSE, ofm |-> FALSE]
     /\ pat = ErrNode("none") /\ rx = REmpty /\ stream = "" /\ found = FALSE
     /\ orig = rule.pattern /\ defs = rule.macros /\ doc = Top(rule.pattern) /\ rm = {} /\ i = 1
     /\ outcome = "running"
+JInit == \E r \in RuleDocs, ls \in Listings : JInitFor(r, ls)
 
 LoadRule ==
     /\ stage = "LoadRule" /\ outcome = "running"
